@@ -78,7 +78,7 @@ def cards(cfg, seed=0, iterations=2, max_order=(3, 0), xif=None, n3lo=(0,) * 7, 
     return runcards.TheoryCard.from_dict(th), runcards.OperatorCard.from_dict(op)
 
 
-def solve(cfg, seed=0, **kw):
+def solve(cfg, seed=0, cores=1, **kw):
     """Returns the outcome record for DispatchTrace plus digests of the operators."""
     import eko
     from eko.io.struct import EKO
@@ -87,6 +87,7 @@ def solve(cfg, seed=0, **kw):
     out = dict(cfg=dict(cfg), kind="finite", exc="", msg="", allFinite=True, digest="")
     try:
         th, op = cards(cfg, seed=seed, **kw)
+        op.configs.n_integration_cores = cores
     except Exception as ex:  # noqa: BLE001
         out.update(kind=type(ex).__name__, exc=type(ex).__name__, msg="cards:" + str(ex)[:150])
         return out
